@@ -152,6 +152,16 @@ pub fn gen_files(rng: &mut Rng, max_files: usize, max_body: usize) -> Files {
                 let l = rng.range(30, 33);
                 (0..l).map(|i| (b'a' + (i % 26) as u8) as char).collect::<String>() + &gen_ident(rng, 2)
             }
+            3 if !files.is_empty() => {
+                // a name that contains / is contained in an earlier name (not only as its tail)
+                let prev = files[rng.below(files.len())].0.clone();
+                match rng.below(4) {
+                    0 => format!("{}.bak", prev),
+                    1 => prev.chars().take(prev.chars().count().saturating_sub(1).max(1)).collect(),
+                    2 => prev.chars().skip(1).collect(),
+                    _ => format!("x{}", prev),
+                }
+            }
             _ => format!("{}.bin", gen_ident(rng, 10)),
         };
         if files.iter().any(|(n2, _)| *n2 == name) {
